@@ -146,3 +146,9 @@ BOUNDED['C05'] = BOUNDED['C05'] + [{'name': 'built-ins-never-panic', 'script': '
     'functions': ['every built-in function of feel-evaluator/src/bifs (names read from feel/src/bif.rs), positional form'],
     'bound': 'each of the 73 built-in names applied to every tuple of 0, 1 and 2 arguments from a 23-value grid (null, numbers incl. 2^64, strings incl. multi-byte, booleans, empty / null / nested lists, contexts, '
              'date, time, date and time, both durations, a function) and to every triple from an 8-value grid: 77 745 evaluations under catch_unwind, no panic'}]
+# list contains / index of / distinct values / union compare items with the equality of unit compare: its differential serves C08 too
+BOUNDED['C08'] = BOUNDED['C08'] + [{'name': 'equality-differential', 'script': 'eqdiff.py', 'args': [], 'functions': ['core::list_contains', 'core::index_of', 'core::distinct_values', 'core::union', 'builders::evaluate_equals'],
+    'bound': 'every ordered pair from a 41-value alphabet under =, !=, list contains, index of (and distinct values / union on seven lists): about 4 000 evaluations; where items of different kinds meet inside lists / contexts only "not equal to true" is demanded'}]
+BOUNDED['C08'] = BOUNDED['C08'] + [{'name': 'aggregates-differential', 'script': 'statdiff.py', 'args': [], 'functions': ['core::sum', 'core::mean', 'core::min', 'core::max', 'core::count', 'core::median', 'core::mode', 'core::stddev'],
+    'bound': 'sum, mean, min, max, count, median, mode, stddev over every list of length 0..4 from {1, 2, 3, 2.5, -1} in the list form and of length 1..3 in the variadic and named forms (about 8 000 evaluations) against DMN 1.3 Table 75 / 76 '
+             'computed with exact rational arithmetic (stddev to 28 digits); product answers "not implemented" and is not claimed'}]
